@@ -25,6 +25,7 @@ func init() {
 	ruleText["R16.6"] = "in importSrc the root handed to the global type analysis of the package (the root its own imports are resolved from) originates (SSA) only in effectivePkg or filepath.Rel: a path obtained by trimming a prefix is relative only while the prefix matches"
 	ruleText["R16.7"] = "in importSrc the key of the import-once table (srcPkg) identifies the directory the import resolves to: it is not the bare import path, which is relative to the importer (./util from two directories, one directory under two spellings, one path vendored twice)"
 	ruleText["R16.4"] = "in importSrc the first argument of effectivePkg originates (SSA) only in the second result of a pkgDir call (possibly through an in-package helper), the root parameter or a constant"
+	ruleText["R16.8"] = "= R02.14 shared: nothing in package interp fills a process-wide table (sync.Map, package-level map) after package initialisation - a directory listing, a resolved path or a parsed file remembered by path alone is handed to an interpreter with another filesystem, GOPATH or a changed tree"
 	ruleText["R16.5"] = "in the loop of previousRoot that calls fs.Stat on Join(<dir>, vendor), every break decided by a comparison with the source root (prefix) compares <dir> itself"
 	ruleText["R16.3"] = "every file-system access in the functions reachable from importSrc within package interp is an io/fs function whose first argument is loaded from Interpreter.opt.filesystem; no os.Open/ReadFile/Stat/ReadDir or io/ioutil access"
 }
@@ -44,6 +45,7 @@ func runC16(c *Config, r *Report) {
 	c16R6(ic, r)
 	c16R7(ic, r)
 	c16R5(ic, r)
+	noProcessWideMemo(ic, r, "R16.8")
 }
 
 func c16R1(ic *IC, r *Report) {
@@ -736,26 +738,31 @@ func c16R5(ic *IC, r *Report) {
 					breaks = true
 				}
 			}
-			be, ok := unparen(ifs.Cond).(*ast.BinaryExpr)
-			if !breaks || !ok || be.Op != token.EQL {
+			if !breaks {
 				return true
 			}
-			rid, lid := identOf(be.Y), identOf(be.X)
-			if lid != nil && lid.Name == "prefix" {
-				rid, lid = lid, identOf(be.Y) // prefix == parent
-				if lid == nil {
-					// prefix == filepath.Dir(parent): the other side is not a plain variable
-					n++
-					r.Fail("R16.5", fmt.Sprintf("previousRoot/stop-at-the-source-root#%d", n), ic.pos(ifs.Pos()), "the ancestor walk of previousRoot stops on "+types.ExprString(ifs.Cond)+", which does not compare the probed directory "+dir.Name()+" itself with the source root: the walk ends one level early and the vendor directory of a first-level project (GOPATH/src/<top>/vendor) is never probed for importers two or more levels below it")
+			// every comparison with the source root inside the condition (disjuncts included)
+			ast.Inspect(ifs.Cond, func(q ast.Node) bool {
+				be, ok := q.(*ast.BinaryExpr)
+				if !ok || be.Op != token.EQL {
 					return true
 				}
-			}
-			if rid == nil || rid.Name != "prefix" {
+				lid, rid := identOf(be.X), identOf(be.Y)
+				var other ast.Expr
+				switch {
+				case rid != nil && rid.Name == "prefix":
+					other = be.X
+				case lid != nil && lid.Name == "prefix":
+					other = be.Y
+				default:
+					return true
+				}
+				n++
+				oid := identOf(other)
+				r.Check(oid != nil && info.ObjectOf(oid) == dir, "R16.5", fmt.Sprintf("previousRoot/stop-at-the-source-root#%d", n), ic.pos(be.Pos()), "the walk stops when the probed directory itself is the source root",
+					"the ancestor walk of previousRoot stops on "+types.ExprString(be)+" (in "+types.ExprString(ifs.Cond)+"), which does not compare the probed directory "+dir.Name()+" itself with the source root: the walk ends one level early and the vendor directory of a first-level project (GOPATH/src/<top>/vendor) is never probed for importers two or more levels below it")
 				return true
-			}
-			n++
-			r.Check(lid != nil && info.ObjectOf(lid) == dir, "R16.5", fmt.Sprintf("previousRoot/stop-at-the-source-root#%d", n), ic.pos(ifs.Pos()), "the walk stops when the probed directory itself is the source root",
-				"the ancestor walk of previousRoot stops on "+types.ExprString(ifs.Cond)+", which does not compare the probed directory "+dir.Name()+" itself with the source root: the walk ends one level early and the vendor directory of a first-level project (GOPATH/src/<top>/vendor) is never probed for importers two or more levels below it")
+			})
 			return true
 		})
 		return false
